@@ -48,6 +48,29 @@ def gen(seed: int, tier: str, idx=None):
     cfg = {"property": PROPERTY, "aspects": ["grid", "names", "merges"], "profile": "merge", "_mix": {"s": 2, "i": 2, "f": 1, "b": 1}, "_long": False}
     g = Gen(seed, tier, cfg)
     rng = g.rng
+    big = rng0.random()
+    if big < 0.06:
+        # ranges at large coordinates: rows beyond 255 / 4095 / 65535-ish packing boundaries, columns beyond 255
+        shape = rng0.choice(["tall", "tall", "wide"])
+        if shape == "tall":
+            n = rng0.choice([300, 4096, 4100, 5000])
+            g.emit({"op": "new_doc", "rows": n, "cols": rng0.randint(1, 2), "hr": 0, "hc": 0})
+            tm = g.ms.docs[0].model.sheets[0].tables[0]
+            r0 = rng0.choice([n - 3, n - 2, max(0, n - 10), 255, 256, min(n - 2, 4095), min(n - 2, 4096)])
+            rects = [[r0, 0, min(n - 1, r0 + rng0.randint(0, 2)), tm.ncols - 1 if rng0.random() < 0.5 else 0]]
+            if rng0.random() < 0.4:
+                rects.append([1, 0, min(n - 1, 1 + rng0.choice([254, 255, 256, 4095, 4096, 4198])), 0])
+        else:
+            n = rng0.choice([257, 300])
+            g.emit({"op": "new_doc", "rows": 2, "cols": n, "hr": 0, "hc": 0})
+            c0 = rng0.choice([254, 255, 256, n - 3])
+            rects = [[0, c0, rng0.randint(0, 1), min(n - 1, c0 + rng0.randint(0, 2))]]
+        g.emit({"op": "merge", "d": 0, "s": 0, "t": 0, "rects": rects, "as_list": True})
+        g.emit({"op": "write", "d": 0, "s": 0, "t": 0, "r": 0, "c": 0, "v": V.enc("top")})
+        slot = rng.choice(ALL_SLOTS)
+        g.emit({"op": "save", "d": 0, "slot": slot})
+        g.emit({"op": "restart", "d": 0, "slot": slot})
+        return cfg, g.ops
     if rng0.random() < 0.15:
         g.emit({"op": "open_fixture", "name": rng0.choice(MERGED_FIXTURES)})
     else:
